@@ -1,4 +1,5 @@
 import Nsq.Model.BackedQueue
+import Nsq.Model.Chan
 import Nsq.Proofs.DiskQueueApi
 /-!
 The queue of one channel / topic (`Nsq.Model.BackedQueue`: bounded memory queue + E9 backend):
@@ -187,14 +188,27 @@ theorem stepRun_restart (cfg : Cfg) (r : Run) : stepRun cfg r .restart =
 theorem stepRun_empty (cfg : Cfg) (r : Run) : stepRun cfg r .empty =
     { r with q := (BackedQueue.empty r.q).2, emptiedMem := r.emptiedMem ++ r.q.mem } := rfl
 
+/-- what the backend holds after one operation (the FIFO specification) -/
+def specDisk (cfg : Cfg) (r : Run) (disk : List Bytes) : Op → List Bytes
+  | .put b => if r.q.mem.length < r.q.memCap then disk else if validB cfg b then disk ++ [b] else disk
+  | .takeMem => disk
+  | .takeDisk => disk.tail
+  | .restart => disk ++ r.q.mem.filter (validB cfg)
+  | .empty => []
+
+def specGone (gone disk : List Bytes) : Op → List Bytes
+  | .empty => gone ++ disk
+  | _ => gone
+
 theorem ledger_step {cfg : Cfg} (hok : CfgOk cfg) {memCap : Nat} {r : Run} {disk gone : List Bytes}
     (h : Ledger cfg memCap r disk gone) (o : Op) :
-    ∃ disk' gone', Ledger cfg memCap (stepRun cfg r o) disk' gone' ∧ (o ≠ .empty → gone' = gone) := by
+    ∃ disk' gone', Ledger cfg memCap (stepRun cfg r o) disk' gone' ∧ (o ≠ .empty → gone' = gone) ∧
+      disk' = specDisk cfg r disk o ∧ gone' = specGone gone disk o := by
   cases o with
   | put b =>
     by_cases hm : r.q.mem.length < r.q.memCap
     · have e := put_mem r.q b hm
-      refine ⟨disk, gone, ?_, fun _ => rfl⟩
+      refine ⟨disk, gone, ?_, fun _ => rfl, by simp [specDisk, hm], rfl⟩
       rw [stepRun_put]
       rw [if_pos (Or.inl (by rw [e]))]
       rw [e]
@@ -207,7 +221,7 @@ theorem ledger_step {cfg : Cfg} (hok : CfgOk cfg) {memCap : Nat} {r : Run} {disk
         simpa only [List.append_assoc] using this
     · by_cases hv : ValidRec r.q.dq.cfg b
       · obtain ⟨a1, a2, a3, a4⟩ := put_disk_ok h.inv b hm hv
-        refine ⟨disk ++ [b], gone, ?_, fun _ => rfl⟩
+        refine ⟨disk ++ [b], gone, ?_, fun _ => rfl, by simp [specDisk, hm, validB, show ValidRec cfg b from h.cfg ▸ hv], rfl⟩
         rw [stepRun_put]
         rw [if_pos (Or.inr a1)]
         refine ⟨a4, by rw [← h.cfg]; exact (bq_put_cfg r.q b).1, by rw [← h.cap]; exact a3, ?_, ?_⟩
@@ -218,7 +232,7 @@ theorem ledger_step {cfg : Cfg} (hok : CfgOk cfg) {memCap : Nat} {r : Run} {disk
           have := h.perm.append_right [b]
           simpa only [List.append_assoc] using this
       · obtain ⟨a1, a2, a3, a4⟩ := put_disk_invalid h.inv b hm hv
-        refine ⟨disk, gone, ?_, fun _ => rfl⟩
+        refine ⟨disk, gone, ?_, fun _ => rfl, by simp [specDisk, hm, validB, show ¬ ValidRec cfg b from h.cfg ▸ hv], rfl⟩
         rw [stepRun_put]
         rw [if_neg (by rw [a1]; simp)]
         refine ⟨a4, by rw [← h.cfg]; exact (bq_put_cfg r.q b).1, by rw [← h.cap]; exact a3, ?_, ?_⟩
@@ -227,7 +241,7 @@ theorem ledger_step {cfg : Cfg} (hok : CfgOk cfg) {memCap : Nat} {r : Run} {disk
         · show (r.taken ++ (r.emptiedMem ++ (gone ++ (r.flushLost ++ ((BackedQueue.put r.q b).2.mem ++ disk))))).Perm r.accepted
           rw [a2]; exact h.perm
   | takeMem =>
-    refine ⟨disk, gone, ?_, fun _ => rfl⟩
+    refine ⟨disk, gone, ?_, fun _ => rfl, rfl, rfl⟩
     cases hmem : r.q.mem with
     | nil =>
       rw [stepRun_takeMem]
@@ -251,7 +265,7 @@ theorem ledger_step {cfg : Cfg} (hok : CfgOk cfg) {memCap : Nat} {r : Run} {disk
         simp only [List.append_assoc]
         exact List.Perm.refl _
   | takeDisk =>
-    refine ⟨disk.tail, gone, ?_, fun _ => rfl⟩
+    refine ⟨disk.tail, gone, ?_, fun _ => rfl, rfl, rfl⟩
     cases hd : disk with
     | nil =>
       have hi := h.inv; rw [hd] at hi
@@ -281,7 +295,7 @@ theorem ledger_step {cfg : Cfg} (hok : CfgOk cfg) {memCap : Nat} {r : Run} {disk
         exact List.Perm.refl _
   | restart =>
     obtain ⟨a1, a2, a3, a4⟩ := restart_inv h.inv cfg hok (by rw [h.cfg]) (by rw [h.cfg]) r.q.memCap
-    refine ⟨disk ++ r.q.mem.filter (validB r.q.dq.cfg), gone, ?_, fun _ => rfl⟩
+    refine ⟨disk ++ r.q.mem.filter (validB r.q.dq.cfg), gone, ?_, fun _ => rfl, by show _ = disk ++ r.q.mem.filter (validB cfg); rw [h.cfg], rfl⟩
     rw [stepRun_restart]
     refine ⟨a1, a4, h.cap, ?_, ?_⟩
     · show (openBQ r.q.memCap cfg (BackedQueue.close r.q).1.dq.fs).mem.length ≤ memCap
@@ -304,7 +318,7 @@ theorem ledger_step {cfg : Cfg} (hok : CfgOk cfg) {memCap : Nat} {r : Run} {disk
       rw [List.append_assoc]
   | empty =>
     obtain ⟨_, a2, a3, a4, a5⟩ := empty_inv h.inv
-    refine ⟨[], gone ++ disk, ?_, fun hne => absurd rfl hne⟩
+    refine ⟨[], gone ++ disk, ?_, fun hne => absurd rfl hne, rfl, rfl⟩
     rw [stepRun_empty]
     refine ⟨a3, by rw [a5]; exact h.cfg, by rw [a4]; exact h.cap, ?_, ?_⟩
     · show (BackedQueue.empty r.q).2.mem.length ≤ memCap
@@ -336,7 +350,7 @@ theorem ledger_run (cfg : Cfg) (hok : CfgOk cfg) (memCap : Nat) (ops : List Op) 
     | nil => intro r disk gone h; exact ⟨disk, gone, h, fun _ => rfl⟩
     | cons o ops ih =>
       intro r disk gone h
-      obtain ⟨d1, g1, h1, e1⟩ := ledger_step hok h o
+      obtain ⟨d1, g1, h1, e1, _, _⟩ := ledger_step hok h o
       obtain ⟨d2, g2, h2, e2⟩ := ih _ d1 g1 h1
       refine ⟨d2, g2, by simpa only [List.foldl_cons] using h2, ?_⟩
       intro hall
@@ -351,11 +365,348 @@ theorem ledger_foldl (cfg : Cfg) (hok : CfgOk cfg) (memCap : Nat) (ops : List Op
   induction ops generalizing r disk gone with
   | nil => exact ⟨disk, gone, h, fun _ => rfl⟩
   | cons o ops ih =>
-    obtain ⟨d1, g1, h1, e1⟩ := ledger_step hok h o
+    obtain ⟨d1, g1, h1, e1, _, _⟩ := ledger_step hok h o
     obtain ⟨d2, g2, h2, e2⟩ := ih _ d1 g1 h1
     refine ⟨d2, g2, by simpa only [List.foldl_cons] using h2, ?_⟩
     intro hall
     rw [e2 (fun x hx => hall x (by simp [hx])), e1 (hall o (by simp))]
+
+/-! ### histories of valid records: nothing is refused, every put is accepted -/
+
+def putsOf : List Op → List Bytes
+  | [] => []
+  | .put b :: ops => b :: putsOf ops
+  | _ :: ops => putsOf ops
+
+theorem putsOf_mem {ops : List Op} {b : Bytes} : b ∈ putsOf ops ↔ Op.put b ∈ ops := by
+  induction ops with
+  | nil => simp [putsOf]
+  | cons o ops ih =>
+    cases o <;> simp [putsOf, ih]
+
+/-- every record in the memory queue has a size the backend accepts -/
+def Clean (cfg : Cfg) (r : Run) : Prop := ∀ b ∈ r.q.mem, ValidRec cfg b
+
+theorem clean_step {cfg : Cfg} (hok : CfgOk cfg) {memCap : Nat} {r : Run} {disk gone : List Bytes}
+    (h : Ledger cfg memCap r disk gone) (hc : Clean cfg r) (o : Op) (hv : ∀ b, o = .put b → ValidRec cfg b) :
+    Clean cfg (stepRun cfg r o) ∧ (stepRun cfg r o).refused = r.refused ∧
+      (stepRun cfg r o).flushLost = r.flushLost ∧ (stepRun cfg r o).accepted = r.accepted ++ putsOf [o] ∧
+      ((∀ b, o ≠ .put b) → (stepRun cfg r o).accepted = r.accepted) ∧
+      (o ≠ .empty → (stepRun cfg r o).emptiedMem = r.emptiedMem) := by
+  cases o with
+  | put b =>
+    have hvb := hv b rfl
+    rw [stepRun_put]
+    by_cases hm : r.q.mem.length < r.q.memCap
+    · have e := put_mem r.q b hm
+      rw [if_pos (Or.inl (by rw [e]))]
+      rw [e]
+      refine ⟨?_, rfl, rfl, rfl, fun hh => absurd rfl (hh b), fun _ => rfl⟩
+      intro x hx
+      replace hx : x ∈ r.q.mem ++ [b] := hx
+      rw [List.mem_append] at hx
+      cases hx with
+      | inl h1 => exact hc x h1
+      | inr h1 => simp only [List.mem_singleton] at h1; rw [h1]; exact hvb
+    · obtain ⟨a1, a2, _, _⟩ := put_disk_ok h.inv b hm (by rw [h.cfg]; exact hvb)
+      rw [if_pos (Or.inr a1)]
+      refine ⟨?_, rfl, rfl, rfl, fun hh => absurd rfl (hh b), fun _ => rfl⟩
+      intro x hx
+      replace hx : x ∈ (BackedQueue.put r.q b).2.mem := hx
+      rw [a2] at hx
+      exact hc x hx
+  | takeMem =>
+    rw [stepRun_takeMem]
+    cases hmem : r.q.mem with
+    | nil =>
+      rw [takeMem_nil r.q hmem]
+      exact ⟨hc, rfl, rfl, by simp [putsOf], fun _ => rfl, fun _ => rfl⟩
+    | cons b rest =>
+      rw [takeMem_cons r.q b rest hmem]
+      refine ⟨?_, rfl, rfl, by simp [putsOf], fun _ => rfl, fun _ => rfl⟩
+      intro x hx
+      replace hx : x ∈ rest := hx
+      exact hc x (by rw [hmem]; exact List.mem_cons_of_mem _ hx)
+  | takeDisk =>
+    rw [stepRun_takeDisk]
+    cases hd : (BackedQueue.takeDisk r.q).1 with
+    | none => exact ⟨hc, rfl, rfl, by simp [putsOf], fun _ => rfl, fun _ => rfl⟩
+    | some d => exact ⟨hc, rfl, rfl, by simp [putsOf], fun _ => rfl, fun _ => rfl⟩
+  | restart =>
+    rw [stepRun_restart]
+    obtain ⟨_, a2, _, _⟩ := restart_inv h.inv cfg hok (by rw [h.cfg]) (by rw [h.cfg]) r.q.memCap
+    have hf := (filter_all_valid r.q.dq.cfg r.q.mem (by rw [h.cfg]; exact hc)).2
+    refine ⟨?_, rfl, ?_, by simp [putsOf], fun _ => rfl, fun _ => rfl⟩
+    · intro x hx
+      exact absurd hx (by show ¬ x ∈ ([] : List Bytes); simp)
+    · show r.flushLost ++ (BackedQueue.close r.q).2 = r.flushLost
+      rw [a2, hf, List.append_nil]
+  | empty =>
+    rw [stepRun_empty]
+    refine ⟨?_, rfl, rfl, by simp [putsOf], fun _ => rfl, fun hh => absurd rfl hh⟩
+    intro x hx
+    exact absurd hx (by show ¬ x ∈ ([] : List Bytes); simp)
+
+theorem putsOf_cons (o : Op) (ops : List Op) : putsOf (o :: ops) = putsOf [o] ++ putsOf ops := by
+  cases o <;> simp [putsOf]
+
+/-- the ledger of a history of valid-size records: every put is accepted, nothing is ever refused or lost -/
+theorem clean_foldl (cfg : Cfg) (hok : CfgOk cfg) (memCap : Nat) (ops : List Op) (hv : ∀ b, Op.put b ∈ ops → ValidRec cfg b)
+    (r : Run) (disk gone : List Bytes) (h : Ledger cfg memCap r disk gone) (hc : Clean cfg r) :
+    ∃ disk' gone', Ledger cfg memCap (ops.foldl (stepRun cfg) r) disk' gone' ∧
+      ((∀ o ∈ ops, o ≠ .empty) → gone' = gone ∧ (ops.foldl (stepRun cfg) r).emptiedMem = r.emptiedMem) ∧
+      (ops.foldl (stepRun cfg) r).refused = r.refused ∧ (ops.foldl (stepRun cfg) r).flushLost = r.flushLost ∧
+      (ops.foldl (stepRun cfg) r).accepted = r.accepted ++ putsOf ops := by
+  induction ops generalizing r disk gone with
+  | nil => exact ⟨disk, gone, h, fun _ => ⟨rfl, rfl⟩, rfl, rfl, by simp [putsOf]⟩
+  | cons o ops ih =>
+    obtain ⟨d1, g1, h1, e1, _, _⟩ := ledger_step hok h o
+    obtain ⟨c1, c2, c3, c4, _, c6⟩ := clean_step hok h hc o (fun b hb => hv b (by rw [hb]; simp))
+    obtain ⟨d2, g2, h2, e2, i2, i3, i4⟩ := ih (fun b hb => hv b (List.mem_cons_of_mem _ hb)) _ d1 g1 h1 c1
+    refine ⟨d2, g2, by simpa only [List.foldl_cons] using h2, ?_, ?_, ?_, ?_⟩
+    · intro hall
+      obtain ⟨x1, x2⟩ := e2 (fun x hx => hall x (by simp [hx]))
+      refine ⟨by rw [x1, e1 (hall o (by simp))], ?_⟩
+      simp only [List.foldl_cons]
+      rw [x2, c6 (hall o (by simp))]
+    · simp only [List.foldl_cons]; rw [i2, c2]
+    · simp only [List.foldl_cons]; rw [i3, c3]
+    · simp only [List.foldl_cons]; rw [i4, c4, putsOf_cons o ops, List.append_assoc]
+
+/-- with `--mem-queue-size 0` the whole queue is the disk queue: in histories without `Empty` the records
+handed out are a PREFIX of the records accepted (global FIFO) -/
+theorem zero_mem_fifo_step {cfg : Cfg} (hok : CfgOk cfg) {r : Run} {disk gone : List Bytes}
+    (h : Ledger cfg 0 r disk gone) (he : r.accepted = r.taken ++ disk) (o : Op) (hne : o ≠ .empty) :
+    ∃ disk' gone', Ledger cfg 0 (stepRun cfg r o) disk' gone' ∧
+      (stepRun cfg r o).accepted = (stepRun cfg r o).taken ++ disk' := by
+  have hmem : r.q.mem = [] := List.eq_nil_of_length_eq_zero (Nat.le_zero.1 h.bound)
+  have hm : ¬ r.q.mem.length < r.q.memCap := by rw [h.cap]; omega
+  obtain ⟨d', g', hl, _, hd, _⟩ := ledger_step hok h o
+  refine ⟨d', g', hl, ?_⟩
+  rw [hd]
+  cases o with
+  | put b =>
+    by_cases hv : ValidRec r.q.dq.cfg b
+    · obtain ⟨a1, _, _, _⟩ := put_disk_ok h.inv b hm hv
+      rw [stepRun_put, if_pos (Or.inr a1)]
+      show r.accepted ++ [b] = r.taken ++ specDisk cfg r disk (.put b)
+      have e : specDisk cfg r disk (.put b) = disk ++ [b] := by
+        simp [specDisk, hm, validB, show ValidRec cfg b from h.cfg ▸ hv]
+      rw [e, he, List.append_assoc]
+    · obtain ⟨a1, _, _, _⟩ := put_disk_invalid h.inv b hm hv
+      rw [stepRun_put, if_neg (by rw [a1]; simp)]
+      show r.accepted = r.taken ++ specDisk cfg r disk (.put b)
+      have e : specDisk cfg r disk (.put b) = disk := by
+        simp [specDisk, hm, validB, show ¬ ValidRec cfg b from h.cfg ▸ hv]
+      rw [e, he]
+  | takeMem =>
+    rw [stepRun_takeMem, takeMem_nil r.q hmem]
+    exact he
+  | takeDisk =>
+    rw [stepRun_takeDisk]
+    cases hdk : disk with
+    | nil =>
+      have hi := h.inv; rw [hdk] at hi
+      rw [takeDisk_nil hi]
+      show r.accepted = r.taken ++ []
+      rw [he, hdk]
+    | cons d rest =>
+      have hi := h.inv; rw [hdk] at hi
+      obtain ⟨a1, _, _, _⟩ := takeDisk_cons hi
+      rw [a1]
+      show r.accepted = (r.taken ++ [d]) ++ rest
+      rw [he, hdk, List.append_assoc]; rfl
+  | restart =>
+    rw [stepRun_restart]
+    show r.accepted = r.taken ++ (disk ++ r.q.mem.filter (validB cfg))
+    rw [hmem, he]; simp
+  | empty => exact absurd rfl hne
+
+theorem zero_mem_fifo_foldl (cfg : Cfg) (hok : CfgOk cfg) (ops : List Op) (hne : ∀ o ∈ ops, o ≠ .empty)
+    (r : Run) (disk gone : List Bytes) (h : Ledger cfg 0 r disk gone) (he : r.accepted = r.taken ++ disk) :
+    ∃ disk' gone', Ledger cfg 0 (ops.foldl (stepRun cfg) r) disk' gone' ∧
+      (ops.foldl (stepRun cfg) r).accepted = (ops.foldl (stepRun cfg) r).taken ++ disk' := by
+  induction ops generalizing r disk gone with
+  | nil => exact ⟨disk, gone, h, he⟩
+  | cons o ops ih =>
+    obtain ⟨d1, g1, h1, e1⟩ := zero_mem_fifo_step hok h he o (hne o (by simp))
+    obtain ⟨d2, g2, h2, e2⟩ := ih (fun x hx => hne x (by simp [hx])) _ d1 g1 h1 e1
+    exact ⟨d2, g2, by simpa only [List.foldl_cons] using h2, by simpa only [List.foldl_cons] using e2⟩
+
+/-! ### the counters of the E2 channel model -/
+
+/-- simulation relation between the queue of one channel and the two counters of the E2 model -/
+def CntRel (q : BQ) (disk : List Bytes) (c : Chan.Chan) : Prop :=
+  c.memLen = q.mem.length ∧ c.dqLen = disk.length ∧ c.memCap = q.memCap ∧ c.ephemeral = false
+
+/-- the counter update of every E2 step that takes a queued message (`doDeliver`, `sampleDrop`):
+"`memLen > 0` ? memory : disk" -/
+def e2Take (c : Chan.Chan) : Chan.Chan :=
+  { c with memLen := if c.memLen > 0 then c.memLen - 1 else c.memLen,
+           dqLen := if c.memLen > 0 then c.dqLen else c.dqLen - 1 }
+
+theorem doDeliver_counters (c : Chan.Chan) (cl : Chan.Client) (k id : Nat) (now : Int) (a : Nat)
+    (h : (Chan.doDeliver c cl k id now).2 = .msg a) :
+    (Chan.doDeliver c cl k id now).1.memLen = (e2Take c).memLen ∧
+    (Chan.doDeliver c cl k id now).1.dqLen = (e2Take c).dqLen ∧
+    (Chan.doDeliver c cl k id now).1.memCap = c.memCap ∧
+    (Chan.doDeliver c cl k id now).1.ephemeral = c.ephemeral := by
+  unfold Chan.doDeliver at h ⊢
+  split
+  · rename_i h1
+    rw [h1] at h
+    exact absurd h (by simp)
+  · rename_i e h1
+    rw [h1] at h
+    simp only [] at h ⊢
+    split
+    · rename_i h2
+      rw [if_pos h2] at h
+      exact absurd h (by simp)
+    · exact ⟨rfl, rfl, rfl, rfl⟩
+
+theorem enqueue_counters (c : Chan.Chan) (id : Nat) (he : c.ephemeral = false) :
+    (Chan.enqueue c id).memLen = (if c.memLen < c.memCap then c.memLen + 1 else c.memLen) ∧
+    (Chan.enqueue c id).dqLen = (if c.memLen < c.memCap then c.dqLen else c.dqLen + 1) ∧
+    (Chan.enqueue c id).memCap = c.memCap ∧ (Chan.enqueue c id).ephemeral = false := by
+  unfold Chan.enqueue
+  by_cases h : c.memLen < c.memCap
+  · rw [if_pos h, if_pos h, if_pos h]; exact ⟨rfl, rfl, rfl, he⟩
+  · rw [if_neg h, if_neg h, if_neg h, if_neg (by rw [he]; simp)]; exact ⟨rfl, rfl, rfl, he⟩
+
+theorem resplit_counters (conf : Chan.Conf) (c : Chan.Chan) (m d : Nat) (hs : m + d = c.memLen + c.dqLen)
+    (hm : m ≤ c.memCap) (he : c.ephemeral = false) :
+    (Chan.step conf c (.resplit m d)).1.memLen = m ∧ (Chan.step conf c (.resplit m d)).1.dqLen = d ∧
+    (Chan.step conf c (.resplit m d)).1.memCap = c.memCap ∧ (Chan.step conf c (.resplit m d)).1.ephemeral = false ∧
+    (Chan.step conf c (.resplit m d)).2 = .ok := by
+  have hc : (m + d = c.memLen + c.dqLen && decide (m ≤ c.memCap) && (!c.ephemeral || d == 0)) = true := by
+    simp [hs, hm, he]
+  have e : Chan.step conf c (.resplit m d) = ({ c with memLen := m, dqLen := d }, Chan.Out.ok) := by
+    simp only [Chan.step]
+    rw [if_pos hc]
+  rw [e]
+  exact ⟨rfl, rfl, rfl, he, rfl⟩
+
+theorem e2_empty_counters (conf : Chan.Conf) (c : Chan.Chan) :
+    (Chan.step conf c .empty).1.memLen = 0 ∧ (Chan.step conf c .empty).1.dqLen = 0 ∧
+    (Chan.step conf c .empty).1.memCap = c.memCap ∧ (Chan.step conf c .empty).1.ephemeral = c.ephemeral := by
+  refine ⟨?_, ?_, ?_, ?_⟩ <;> simp only [Chan.step]
+
+/-- the E2 steps (counters only) that one queue operation corresponds to; the outcome of the operation
+is the observation of the runtime's choice (`resplit`) -/
+def e2Step (conf : Chan.Conf) (r : Run) (c : Chan.Chan) : Op → Chan.Chan
+  | .put _ => Chan.enqueue c 0
+  | .takeMem => if r.q.mem = [] then c else e2Take c
+  | .takeDisk =>
+    match (BackedQueue.takeDisk r.q).1 with
+    | none => c
+    | some _ => (Chan.step conf (e2Take c) (.resplit r.q.mem.length (c.dqLen - 1))).1
+  | .restart => (Chan.step conf c (.resplit 0 (c.memLen + c.dqLen))).1
+  | .empty => (Chan.step conf c .empty).1
+
+theorem cnt_step {cfg : Cfg} {memCap : Nat} {r : Run} {disk gone : List Bytes}
+    (h : Ledger cfg memCap r disk gone) (hc : Clean cfg r) (conf : Chan.Conf) (c : Chan.Chan) (hr : CntRel r.q disk c)
+    (o : Op) (hv : ∀ b, o = .put b → ValidRec cfg b) :
+    CntRel (stepRun cfg r o).q (specDisk cfg r disk o) (e2Step conf r c o) := by
+  obtain ⟨r1, r2, r3, r4⟩ := hr
+  cases o with
+  | put b =>
+    have hvb := hv b rfl
+    obtain ⟨e1, e2, e3, e4⟩ := enqueue_counters c 0 r4
+    show CntRel _ _ (Chan.enqueue c 0)
+    rw [stepRun_put]
+    by_cases hm : r.q.mem.length < r.q.memCap
+    · have e := put_mem r.q b hm
+      have hm' : c.memLen < c.memCap := by rw [r1, r3]; exact hm
+      rw [if_pos (Or.inl (by rw [e])), e]
+      have sd : specDisk cfg r disk (.put b) = disk := by simp [specDisk, hm]
+      rw [sd]
+      refine ⟨?_, ?_, by rw [e3, r3], e4⟩
+      · rw [e1, if_pos hm', r1]; show _ = (r.q.mem ++ [b]).length; simp
+      · rw [e2, if_pos hm', r2]
+    · obtain ⟨a1, a2, a3, _⟩ := put_disk_ok h.inv b hm (by rw [h.cfg]; exact hvb)
+      have hm' : ¬ c.memLen < c.memCap := by rw [r1, r3]; exact hm
+      rw [if_pos (Or.inr a1)]
+      have sd : specDisk cfg r disk (.put b) = disk ++ [b] := by simp [specDisk, hm, validB, hvb]
+      rw [sd]
+      refine ⟨?_, ?_, by rw [e3, r3]; exact a3.symm, e4⟩
+      · rw [e1, if_neg hm', r1]; show _ = (BackedQueue.put r.q b).2.mem.length; rw [a2]
+      · rw [e2, if_neg hm', r2]; simp
+  | takeMem =>
+    rw [stepRun_takeMem]
+    show CntRel _ disk (if r.q.mem = [] then c else e2Take c)
+    cases hmem : r.q.mem with
+    | nil =>
+      rw [takeMem_nil r.q hmem, if_pos rfl]
+      exact ⟨r1, r2, r3, r4⟩
+    | cons b rest =>
+      rw [takeMem_cons r.q b rest hmem, if_neg (by simp)]
+      have hp : c.memLen > 0 := by rw [r1, hmem]; simp
+      refine ⟨?_, ?_, r3, r4⟩
+      · show (if c.memLen > 0 then c.memLen - 1 else c.memLen) = rest.length
+        rw [if_pos hp, r1, hmem]; simp
+      · show (if c.memLen > 0 then c.dqLen else c.dqLen - 1) = disk.length
+        rw [if_pos hp, r2]
+  | takeDisk =>
+    rw [stepRun_takeDisk]
+    show CntRel _ disk.tail (match (BackedQueue.takeDisk r.q).1 with
+      | none => c
+      | some _ => (Chan.step conf (e2Take c) (.resplit r.q.mem.length (c.dqLen - 1))).1)
+    cases hdk : disk with
+    | nil =>
+      have hi := h.inv; rw [hdk] at hi
+      rw [takeDisk_nil hi]
+      exact ⟨r1, by rw [r2, hdk]; rfl, r3, r4⟩
+    | cons d rest =>
+      have hi := h.inv; rw [hdk] at hi
+      obtain ⟨a1, a2, a3, _⟩ := takeDisk_cons hi
+      rw [a1]
+      have hdl : c.dqLen = rest.length + 1 := by rw [r2, hdk]; rfl
+      have hb := h.bound
+      have hsum : r.q.mem.length + (c.dqLen - 1) = (e2Take c).memLen + (e2Take c).dqLen := by
+        show _ = (if c.memLen > 0 then c.memLen - 1 else c.memLen) + (if c.memLen > 0 then c.dqLen else c.dqLen - 1)
+        by_cases hp : c.memLen > 0
+        · rw [if_pos hp, if_pos hp]; omega
+        · rw [if_neg hp, if_neg hp]; omega
+      obtain ⟨s1, s2, s3, s4, _⟩ := resplit_counters conf (e2Take c) r.q.mem.length (c.dqLen - 1) hsum
+        (by show r.q.mem.length ≤ c.memCap; rw [r3, h.cap]; exact hb) r4
+      refine ⟨?_, ?_, ?_, s4⟩
+      · rw [s1]; show _ = (BackedQueue.takeDisk r.q).2.mem.length; rw [a2]
+      · rw [s2, hdl]; simp
+      · rw [s3]; show c.memCap = (BackedQueue.takeDisk r.q).2.memCap; rw [a3, r3]
+  | restart =>
+    rw [stepRun_restart]
+    show CntRel _ (disk ++ r.q.mem.filter (validB cfg)) (Chan.step conf c (.resplit 0 (c.memLen + c.dqLen))).1
+    obtain ⟨s1, s2, s3, s4, _⟩ := resplit_counters conf c 0 (c.memLen + c.dqLen) (by omega) (Nat.zero_le _) r4
+    have hf := (filter_all_valid cfg r.q.mem hc).1
+    refine ⟨by rw [s1]; rfl, ?_, by rw [s3, r3]; rfl, s4⟩
+    rw [s2, hf, List.length_append, r1, r2]; omega
+  | empty =>
+    rw [stepRun_empty]
+    show CntRel _ [] (Chan.step conf c .empty).1
+    obtain ⟨s1, s2, s3, s4⟩ := e2_empty_counters conf c
+    exact ⟨by rw [s1]; rfl, by rw [s2]; rfl, by rw [s3, r3]; rfl, by rw [s4, r4]⟩
+
+/-- the E2 counters along a whole history -/
+def e2Run (conf : Chan.Conf) (cfg : Cfg) : Run → Chan.Chan → List Op → Chan.Chan
+  | _, c, [] => c
+  | r, c, o :: ops => e2Run conf cfg (stepRun cfg r o) (e2Step conf r c o) ops
+
+theorem cnt_foldl (cfg : Cfg) (hok : CfgOk cfg) (memCap : Nat) (conf : Chan.Conf) (ops : List Op)
+    (hv : ∀ b, Op.put b ∈ ops → ValidRec cfg b) (r : Run) (disk gone : List Bytes) (h : Ledger cfg memCap r disk gone)
+    (hc : Clean cfg r) (c : Chan.Chan) (hr : CntRel r.q disk c) :
+    ∃ disk' gone', Ledger cfg memCap (ops.foldl (stepRun cfg) r) disk' gone' ∧
+      CntRel (ops.foldl (stepRun cfg) r).q disk' (e2Run conf cfg r c ops) := by
+  induction ops generalizing r disk gone c with
+  | nil => exact ⟨disk, gone, h, hr⟩
+  | cons o ops ih =>
+    have hvo : ∀ b, o = .put b → ValidRec cfg b := fun b hb => hv b (by rw [hb]; simp)
+    obtain ⟨d1, g1, h1, _, hd, _⟩ := ledger_step hok h o
+    obtain ⟨c1, _⟩ := clean_step hok h hc o hvo
+    have hr1 := cnt_step h hc conf c hr o hvo
+    rw [← hd] at hr1
+    obtain ⟨d2, g2, h2, r2⟩ := ih (fun b hb => hv b (List.mem_cons_of_mem _ hb)) _ d1 g1 h1 c1 _ hr1
+    exact ⟨d2, g2, by simpa only [List.foldl_cons] using h2, by simpa only [List.foldl_cons, e2Run] using r2⟩
 
 /-! ### the files of one backend -/
 
